@@ -194,7 +194,7 @@ def cutFragment (s : Bytes) : Bytes := s.takeWhile (fun b => b.toNat ≠ 35)
     modelled: the relation to the code is "code accepts ⇒ model accepts with the same value") -/
 def checkEndpointLocation (binding : String) (location : Bytes) : Outcome Bytes :=
   if knownBindings.contains binding then
-    if hasCTL location then .err "control-character"
+    if hasCTL (cutFragment location) then .err "control-character"
     else match getScheme (cutFragment location) with
       | none => .err "missing-scheme"
       | some (scheme, _) =>
